@@ -2,6 +2,7 @@ package pgp2
 
 import (
 	"bytes"
+	"crypto"
 	"fmt"
 	"math/big"
 	"math/rand/v2"
@@ -23,7 +24,7 @@ import (
 func TestC45(t *testing.T) {
 	m := mon.New(t, "C45")
 	defer m.Done()
-	m.Rule("case = (corpus item, packet-aware mutation operator(s), entry point, keyring ∈ {empty, public, public+secret, hostile = ReadKeyRing(mutated bytes)}, prompt ∈ {nil, right, wrong, none, error}, read-buffer size); corpus built at run time from gpg-made constants, hex/armored constants extracted from /repo/openpgp/**/*_test.go and deterministic fresh messages for every packet type; streams: 'baseline' (every corpus item unmutated through its natural entry points), 'directed' (hand-built boundary inputs: header forms, partial-length chains, MDC trailer/length boundaries × buffer sizes, forged session keys, nesting depths, armor/clearsign edge lines), 'truncation' (seed-independent: for every length encoding — packet new-format 1/2/5-octet and partial lengths, old-format 1/2/4-octet, signature subpacket 1/2/5-octet lengths in the hashed and the unhashed area, the signature's own area lengths, MPI bit-length prefixes, S2K specifiers, user-attribute subpacket lengths, ECC OID / ECDH KDF / literal file-name lengths — the enclosing area ends after exactly 0..k-1 bytes of the k-byte field or right after it with no body; signatures are presented detached, armored, on keys, in one-pass and signature-first messages, inside compression and as embedded signatures; packet headers also inside compressed and encrypted containers) 'mutation' (PRNG-chosen operator per case) and 'concurrent' (one shared EntityList/Entity with keys decrypted beforehand used by 4-8 barrier-started goroutines for ReadMessage decrypt+verify, CheckDetachedSignature, DetachSign, Encrypt→ReadMessage, clearsign→verify, and ReadKeyRing/ReadArmoredKeyRing/armor.Decode/armor.Encode/packet.Read on distinct yielding readers over shared read-only bytes; every result must equal the single-threaded result of the same call; every fourth group under GOMAXPROCS(1); the same stream runs alone in the -race build variant; interleavings are scheduler-chosen). Oracle: panic monitor (recover per case; key panic:<entry point>:<top x/crypto frame>) + termination monitor (input reader and output sink count bytes; hung only if 4 goroutine dumps 10 s apart show the case goroutine running inside x/crypto frames with both counters frozen, or a reader returns (0,nil) 2^20 times in a row with no input consumed). distinct key = entry|kind|operator|outcome class; non-trivial = the entry point was executed on the input")
+	m.Rule("case = (corpus item, packet-aware mutation operator(s), entry point, keyring ∈ {empty, public, public+secret, hostile = ReadKeyRing(mutated bytes)}, prompt ∈ {nil, right, wrong, none, error}, read-buffer size); corpus built at run time from gpg-made constants, hex/armored constants extracted from /repo/openpgp/**/*_test.go and deterministic fresh messages for every packet type; streams: 'baseline' (every corpus item unmutated through its natural entry points), 'directed' (hand-built boundary inputs: header forms, partial-length chains, MDC trailer/length boundaries × buffer sizes, forged session keys, nesting depths, armor/clearsign edge lines), 'truncation' (seed-independent: for every length encoding — packet new-format 1/2/5-octet and partial lengths, old-format 1/2/4-octet, signature subpacket 1/2/5-octet lengths in the hashed and the unhashed area, the signature's own area lengths, MPI bit-length prefixes, S2K specifiers, user-attribute subpacket lengths, ECC OID / ECDH KDF / literal file-name lengths — the enclosing area ends after exactly 0..k-1 bytes of the k-byte field or right after it with no body; signatures are presented detached, armored, on keys, in one-pass and signature-first messages, inside compression and as embedded signatures; packet headers also inside compressed and encrypted containers) 'unavailable-hash' (seed-independent: structurally valid signatures of every type the readers verify — 0x10-0x13, 0x18 with embedded 0x19, 0x1F, 0x20, 0x28, 0x30, 0x00/0x01, one-pass and v3 signatures, clearsigned text, S2K specifiers — at every position of a keyring / message with the hash octet ∈ {0,1,2,3,8..14,100,105,110,255}; RIPEMD-160 is not linked into the harness binary), 'mutation' (PRNG-chosen operator per case) and 'concurrent' (one shared EntityList/Entity with keys decrypted beforehand used by 4-8 barrier-started goroutines for ReadMessage decrypt+verify, CheckDetachedSignature, DetachSign, Encrypt→ReadMessage, clearsign→verify, and ReadKeyRing/ReadArmoredKeyRing/armor.Decode/armor.Encode/packet.Read on distinct yielding readers over shared read-only bytes; every result must equal the single-threaded result of the same call; every fourth group under GOMAXPROCS(1); the same stream runs alone in the -race build variant; interleavings are scheduler-chosen). Oracle: panic monitor (recover per case; key panic:<entry point>:<top x/crypto frame>) + termination monitor (input reader and output sink count bytes; hung only if 4 goroutine dumps 10 s apart show the case goroutine running inside x/crypto frames with both counters frozen, or a reader returns (0,nil) 2^20 times in a row with no input consumed). distinct key = entry|kind|operator|outcome class; non-trivial = the entry point was executed on the input")
 	m.Assume("Go runtime panic/stack reporting; goroutine dumps name the case goroutine (pgp2.c45CaseBody); output above 64 MiB is a legitimate compression bomb (class 'capped', not judged); the documented endless re-prompting of ReadMessage is bounded by the harness prompt (error after 2 calls, counted)")
 	if mon.RaceBuild {
 		// race-detector variant: only the shared-value concurrency stream, in batch 0
@@ -94,6 +95,26 @@ func TestC45(t *testing.T) {
 		}
 	})
 
+	// ---- unavailable-hash class (seed-independent) ----
+	hcases := unavailableHashCases(cp)
+	if m.Batch() == 0 {
+		if !crypto.RIPEMD160.Available() {
+			m.Count("ripemd160_not_linked", 1)
+		} else {
+			m.Note("RIPEMD-160 is linked into the harness binary: the unavailable-hash class cannot observe id 3")
+		}
+		if !crypto.MD5.Available() {
+			m.Count("md5_not_linked", 1)
+		}
+	}
+	m.Cases("unavailable-hash", len(hcases), func(i int64, r *rand.Rand) {
+		c := hcases[i]
+		if _, ok := st.run(&c.in, "unavailable-hash", c.label); ok {
+			m.Count("unavailable_hash_cases", 1)
+			m.Count("hash:"+hashClassOf(c.label), 1)
+		}
+	})
+
 	// ---- structured mutation ----
 	total := m.N(80000, 2400000)
 	m.Cases("mutation", total, func(i int64, r *rand.Rand) {
@@ -133,6 +154,10 @@ func TestC45(t *testing.T) {
 	m.Gate("corpus_repo_keyring", 5, "constants extracted from the repository's tests")
 	m.Gate("corpus_repo_msg", 5, "constants extracted from the repository's tests")
 	m.Gate("directed_cases", 500, "hand-built boundary inputs executed")
+	m.Gate("ripemd160_not_linked", 1, "the harness binary does not link RIPEMD-160 (hash id 3 is known to the OpenPGP table but unavailable)")
+	for _, k := range []string{"key-signature", "document-signature", "one-pass-signature", "s2k-hash"} {
+		m.Gate("hash:"+k, hashGateMin[k], "hash-octet sweep at every position where this kind of object is verified")
+	}
 	for _, k := range truncKinds {
 		m.Gate("trunc:"+k, truncGateMin[k], "directed length-field truncations of this encoding (area ends after 0..k-1 bytes of the field, or right after it with no body) in every context")
 	}
